@@ -1469,6 +1469,132 @@ fn sweep_arrangement(mut idx: usize) -> Vec<u64> {
     vec![]
 }
 
+/// local clients (`new_local_client` / `process_local_client` / `disconnect_local_client`) that leave and come back
+/// under the same id, with broadcasts, broadcast_except and directed messages on every channel kind in every round
+const LOCAL_REJOIN_N: usize = 8;
+
+fn local_rejoin_ops(case: usize) -> Vec<String> {
+    let mut ops = vec![cfg_line(60_000, &default_chans(), &default_chans())];
+    let ids = [11u64, 12, 13];
+    for (h, id) in ids.iter().enumerate() {
+        ops.push(format!("lnew {} {}", id, h));
+    }
+    let mut tag = 0u8;
+    let mut round = |ops: &mut Vec<String>, present: &[usize]| {
+        ops.push("ids".into());
+        for ch in 0..3u8 {
+            tag += 1;
+            ops.push(format!("bcast {} {}", ch, hex(&[0xB0, tag, ch])));
+        }
+        tag += 1;
+        ops.push(format!("bcastx {} 2 {}", ids[0], hex(&[0xE0, tag])));
+        tag += 1;
+        ops.push(format!("send s{} 1 {}", ids[2], hex(&[0xD0, tag])));
+        ops.push("upd srv 16000".into());
+        for h in present {
+            ops.push(format!("upd c{} 16000", h));
+            ops.push(format!("lproc {} {}", ids[*h], h));
+            for ch in 0..3u8 {
+                for _ in 0..6 {
+                    ops.push(format!("recv c{} {}", h, ch));
+                }
+            }
+        }
+    };
+    round(&mut ops, &[0, 1, 2]);
+    let who = case % 3; // the client that flaps
+    let times = 1 + (case / 3) % 2; // once or twice
+    for _ in 0..times {
+        ops.push(format!("stat s{}", ids[who]));
+        ops.push(format!("stat c{}", who));
+        ops.push(format!("ldisc {} {}", ids[who], who));
+        let rest: Vec<usize> = (0..3).filter(|h| *h != who).collect();
+        round(&mut ops, &rest);
+        ops.push(format!("lnew {} {}", ids[who], who));
+        round(&mut ops, &[0, 1, 2]);
+    }
+    if case >= 6 {
+        // the same through add/remove of a plain connection next to the local ones
+        ops.push("add 20".into());
+        ops.push("rem 20".into());
+        ops.push("add 20".into());
+        round(&mut ops, &[0, 1, 2]);
+    }
+    for _ in 0..12 {
+        ops.push("ev".into());
+    }
+    ops.push("note local-rejoin".into());
+    ops
+}
+
+/// C11: every broadcast is obtained exactly once by every local client that was connected when it was issued
+/// (lossless in-process exchange), `broadcast_except` skips exactly the named id, a directed message reaches only its
+/// target.
+fn oracle_local_exact(ops: &[String], outs: &[String]) -> Option<OracleFail> {
+    if !ops.iter().any(|o| o == "note local-rejoin") {
+        return None;
+    }
+    let mut connected: Vec<String> = vec![];
+    let mut expect: HashMap<(String, String), i64> = HashMap::new(); // (client handle, message) -> copies still expected
+    let mut handle_of: HashMap<String, String> = HashMap::new(); // id -> handle
+    let mut id_of: HashMap<String, String> = HashMap::new();
+    for (i, (op, out)) in ops.iter().zip(outs.iter()).enumerate() {
+        let t: Vec<&str> = op.split(' ').collect();
+        match t[0] {
+            "lnew" if t.len() == 3 => {
+                handle_of.insert(t[1].to_string(), t[2].to_string());
+                id_of.insert(t[2].to_string(), t[1].to_string());
+                // a new session starts with nothing owed
+                expect.retain(|k, _| k.0 != t[2]);
+            }
+            "ldisc" if t.len() == 3 => {
+                expect.retain(|k, _| k.0 != t[2]);
+            }
+            "ids" => {
+                if let Some(l) = out.strip_prefix("ids [").and_then(|r| r.split(']').next()) {
+                    connected = l.split(',').filter(|x| !x.is_empty()).map(|x| x.to_string()).collect();
+                }
+            }
+            "bcast" | "bcastx" => {
+                let (ex_id, m) = if t[0] == "bcast" && t.len() == 3 { ("", t[2]) } else if t.len() == 4 { (t[1], t[3]) } else { continue };
+                for id in connected.iter() {
+                    if id == ex_id {
+                        continue;
+                    }
+                    if let Some(h) = handle_of.get(id) {
+                        *expect.entry((h.clone(), m.to_string())).or_insert(0) += 1;
+                    }
+                }
+            }
+            "send" if t.len() == 4 && t[1].starts_with('s') => {
+                if let Some(h) = handle_of.get(&t[1][1..]) {
+                    if connected.iter().any(|c| c == &t[1][1..]) {
+                        *expect.entry((h.clone(), t[3].to_string())).or_insert(0) += 1;
+                    }
+                }
+            }
+            "recv" if t.len() == 3 && t[1].starts_with('c') && out.starts_with("msg ") => {
+                let h = t[1][1..].to_string();
+                let m = out[4..].to_string();
+                let e = expect.entry((h.clone(), m.clone())).or_insert(0);
+                *e -= 1;
+                if *e < 0 {
+                    return fail(i, "broadcast-obtained-too-often", format!("local client {} (id {}) obtained message {} more often than it was sent to it", h, id_of.get(&h).cloned().unwrap_or_default(), m));
+                }
+            }
+            "note" if t.len() == 2 && t[1] == "local-rejoin" => {
+                for ((h, m), n) in expect.iter() {
+                    if *n > 0 {
+                        return fail(i, "broadcast-not-obtained", format!("local client {} never obtained message {} ({} copies owed)", h, m, n));
+                    }
+                }
+            }
+            _ => {}
+        }
+    }
+    None
+}
+
 /// many connect / disconnect reports between two polls of `get_event` (an application that polls once per frame
 /// while clients flap): every report must still come out, once, in order
 fn events_burst_ops(case: usize) -> Vec<String> {
@@ -2362,6 +2488,16 @@ pub fn profiles() -> Vec<Profile> {
         nontrivial: |_| true,
         keep: |_| 5,
         fixed: Some(sweep_triples_ops),
+    },
+    Profile {
+        name: "rn-local-rejoin",
+        props: &["C11", "C12"],
+        cases: |_| LOCAL_REJOIN_N,
+        new_world,
+        script: script_none,
+        nontrivial: |_| true,
+        keep: |_| 4,
+        fixed: Some(local_rejoin_ops),
     },
     Profile {
         name: "rn-events-burst",
@@ -3644,6 +3780,7 @@ pub fn oracles() -> Vec<Oracle> {
         Oracle { prop: "C09", name: "duplicates-harmless", engines: &["rn-tight", "rn-pair", "rn-timing"], check: oracle_duplicates_harmless },
         Oracle { prop: "C01", name: "duplicates-harmless", engines: &["rn-tight", "rn-pair", "rn-timing"], check: oracle_duplicates_harmless },
         Oracle { prop: "C02", name: "duplicates-harmless", engines: &["rn-tight", "rn-pair", "rn-timing"], check: oracle_duplicates_harmless },
+        Oracle { prop: "C11", name: "local-exactly-once", engines: &["rn-local-rejoin"], check: oracle_local_exact },
         Oracle { prop: "C12", name: "server-queries", engines: &["rn-api"], check: oracle_server_queries },
         Oracle { prop: "C11", name: "server-queries", engines: &["rn-api"], check: oracle_server_queries },
         Oracle { prop: "C15", name: "never-after-ack-processed", engines: &["rn-pair", "rn-timing", "rn-acks", "rn-tight", "rn-long", "rn-unrel", "rn-volume"], check: oracle_c15_acked },
@@ -3652,7 +3789,7 @@ pub fn oracles() -> Vec<Oracle> {
         Oracle { prop: "C09", name: "unreliable-in-budget", engines: &["rn-unrel"], check: oracle_unrel_budget },
         Oracle { prop: "C03", name: "unreliable-in-budget", engines: &["rn-unrel"], check: oracle_unrel_budget },
         Oracle { prop: "C09", name: "accounting", engines: &["rn-pair", "rn-hostile", "rn-regress", "rn-long", "rn-timing", "rn-acks", "rn-tight", "rn-sweep-slices", "rn-sweep-triples"], check: oracle_c09 },
-        Oracle { prop: "C12", name: "finality-events", engines: &["rn-api", "rn-regress", "rn-hostile", "rn-events-burst"], check: oracle_c12 },
+        Oracle { prop: "C12", name: "finality-events", engines: &["rn-api", "rn-regress", "rn-hostile", "rn-events-burst", "rn-local-rejoin"], check: oracle_c12 },
         Oracle { prop: "C13", name: "packet-size", engines: &["rn-pair", "rn-regress", "rn-multi", "rn-hostile", "rn-long", "rn-timing", "rn-acks", "rn-volume", "rn-unrel"], check: oracle_c13 },
         Oracle { prop: "C14", name: "budget", engines: &["rn-pair", "rn-multi", "rn-unrel", "rn-timing"], check: oracle_c14 },
         Oracle { prop: "C15", name: "resend-timing", engines: &["rn-pair", "rn-timing"], check: oracle_c15 },
